@@ -117,7 +117,7 @@ impl TextCase {
 
 fn partial_text(first: u8, fail: u8, follow: u8) -> TextCase {
     let f = FAILING[fail as usize % FAILING.len()];
-    let text = match first % 7 {
+    let text = match first % 8 {
         0 => format!("(define pa 1) {} (define pb 2)", f),
         1 => format!("(define pa 1) (define (pf) (+ pb 1)) {} (define pb 2)", f),
         2 => format!("(define pa 1) (define pb {}) (define pc 3)", f),
@@ -125,6 +125,9 @@ fn partial_text(first: u8, fail: u8, follow: u8) -> TextCase {
         4 => "(define pa 1) (this-name-is-free) (define pb 2)".to_string(),
         // a redefinition of something the probe uses, in a program that is rejected at compile time: no effect
         5 => "(define probe-box (box 7)) (this-name-is-free)".to_string(),
+        // a redefinition whose right hand side fails at run time: the earlier definition stays
+        // (KF-C07-failed-redefinition-unbinds: on the unchanged tree the name is unbound afterwards)
+        6 => format!("(define probe-box {})", f),
         _ => "(define (probe-counter) 0) (define pa 1) (this-name-is-free 1 2)".to_string(),
     };
     let follow = match follow % 8 {
